@@ -110,6 +110,10 @@ type FuncVerifier struct {
 	oldBound                                     map[types.Object]Term
 	curClause                                    *Clause
 	anchorStmts                                  map[ast.Stmt][]int
+	yields                                       map[types.Object]*yieldCtx
+	rfOverride                                   *rangeFuncOverride
+	clauseCtx                                    *clauseCtx
+	rfPending                                    *rangeFuncOverride
 	noSplit                                      bool
 	inClauseHere                                 bool
 	heapSorts                                    map[string]*Sort // heap name -> reference sort
@@ -291,8 +295,8 @@ func (fv *FuncVerifier) nilMapAxiom(heapName string, h Term) {
 	fv.u.decls = append(fv.u.decls, fmt.Sprintf("(assert (and (= (%s (select %s 0)) ((as const %s) false)) (= (%s (select %s 0)) 0)))",
 		cs.Fields[0].Accessor, h.S, cs.Fields[0].Sort.Name, cs.Fields[2].Accessor, h.S))
 	// len(m) of every map in this heap is a cardinality: non-negative, zero exactly for the empty key set
-	fv.u.decls = append(fv.u.decls, fmt.Sprintf("(assert (forall ((r!m Int)) (! (and (>= (%s (select %s r!m)) 0) (<= (%s (select %s r!m)) 72057594037927936) (= (= (%s (select %s r!m)) 0) (forall ((k!m %s)) (not (select (%s (select %s r!m)) k!m))))) :pattern ((select %s r!m)))))",
-		cs.Fields[2].Accessor, h.S, cs.Fields[2].Accessor, h.S, cs.Fields[2].Accessor, h.S, cs.Key.Name, cs.Fields[0].Accessor, h.S, h.S))
+	fv.u.decls = append(fv.u.decls, fmt.Sprintf("(assert (forall ((r!m Int)) (! (and (>= (%s (select %s r!m)) 0) (= (= (%s (select %s r!m)) 0) (forall ((k!m %s)) (not (select (%s (select %s r!m)) k!m))))) :pattern ((select %s r!m)))))",
+		cs.Fields[2].Accessor, h.S, cs.Fields[2].Accessor, h.S, cs.Key.Name, cs.Fields[0].Accessor, h.S, h.S))
 }
 
 func (fv *FuncVerifier) setHeap(st *State, ref *Sort, h Term) {
@@ -711,8 +715,17 @@ func (fv *FuncVerifier) execBlock(stmts []ast.Stmt, st *State) *State {
 
 func (fv *FuncVerifier) exec(s ast.Stmt, st *State) *State {
 	if len(fv.spec.AssertsBefore) > 0 && fv.specMode == 0 && !fv.termMode && fv.frame().fd == fv.fd {
-		fv.checkAssertsBefore(s, st)
+		fv.checkAssertsBefore(s, st, false)
+		out := fv.execStmt(s, st)
+		if out != nil {
+			fv.checkAssertsBefore(s, out, true)
+		}
+		return out
 	}
+	return fv.execStmt(s, st)
+}
+
+func (fv *FuncVerifier) execStmt(s ast.Stmt, st *State) *State {
 	switch s := s.(type) {
 	case *ast.BlockStmt:
 		return fv.execBlock(s.List, st)
@@ -1132,6 +1145,10 @@ func (fv *FuncVerifier) runClosureBody(lit *ast.FuncLit, fr *frame, args []Term,
 	}
 	base := len(st.pc)
 	fv.frames = append(fv.frames, nf)
+	if fv.rfPending != nil {
+		fv.rfPending.iterFrame = nf
+		fv.rfPending = nil
+	}
 	// loops inside closures keep their ordinal from the enclosing declaration
 	end := fv.execBlock(lit.Body.List, st.clone())
 	if end != nil {
@@ -1260,6 +1277,7 @@ type loopCfg struct {
 	label     string
 	extraMods []types.Object
 	idxVar    types.Object
+	rfo       *rangeFuncOverride  // set when this loop drives a range-over-func statement of the caller
 	sync      func(*State)        // establish derived variables before invariants are evaluated
 	autoInv   func(*State) Term   // engine-supplied invariant
 	cond      func(*State) Term   // loop guard
@@ -1297,6 +1315,11 @@ func (fv *FuncVerifier) cutLoop(cfg *loopCfg, st *State) *State {
 	fr := fv.frame()
 	ls, ord, loop := cfg.ls, cfg.ord, cfg.loop
 	pos := cfg.body.Lbrace
+	if cfg.rfo != nil {
+		saved := fv.clauseCtx
+		fv.clauseCtx = &clauseCtx{fr: cfg.rfo.callerFrame, pos: cfg.rfo.pos}
+		defer func() { fv.clauseCtx = saved }()
+	}
 	if cfg.idxVar != nil {
 		fv.riStack = append(fv.riStack, cfg.idxVar)
 		defer func() { fv.riStack = fv.riStack[:len(fv.riStack)-1] }()
@@ -1335,6 +1358,9 @@ func (fv *FuncVerifier) cutLoop(cfg *loopCfg, st *State) *State {
 	ms := fv.modset(loop)
 	for _, o := range cfg.extraMods {
 		ms.vars[o] = true
+	}
+	if cfg.rfo != nil && cfg.rfo.heaps {
+		ms.heaps = true
 	}
 	head := st.clone()
 	var names []string
@@ -1574,6 +1600,17 @@ func (fv *FuncVerifier) execRange(s *ast.RangeStmt, st *State) *State {
 func (fv *FuncVerifier) execRangeLabel(s *ast.RangeStmt, st *State, label string) *State {
 	ls, _, ord := fv.inlineLoopSpec(s)
 	xt := fv.typeOf(s.X)
+	if _, isFn := xt.Underlying().(*types.Signature); isFn {
+		return fv.execRangeFunc(s, st, label, ls, ord)
+	}
+	var rfo *rangeFuncOverride
+	if o := fv.rfOverride; o != nil && !o.used && fv.frame() == o.iterFrame && callsObj(fv.info(), s.Body, o.yield) {
+		// the loop of an iterator function that drives a `range f()` statement of the caller:
+		// it is cut with the caller's loop specification, evaluated in the caller's scope
+		o.used = true
+		rfo = o
+		ls, ord = o.ls, o.ord
+	}
 	info := fv.info()
 	keyObj := func(e ast.Expr) types.Object {
 		if e == nil {
@@ -1629,7 +1666,11 @@ func (fv *FuncVerifier) execRangeLabel(s *ast.RangeStmt, st *State, label string
 				st.vars[kObj] = idx(st)
 			}
 		}
-		res := fv.cutLoop(&loopCfg{loop: s, body: s.Body, ls: ls, ord: ord, label: label, extraMods: []types.Object{iv}, idxVar: iv,
+		extra := []types.Object{iv}
+		if rfo != nil {
+			extra = append(extra, rfo.extraMods...)
+		}
+		res := fv.cutLoop(&loopCfg{loop: s, body: s.Body, ls: ls, ord: ord, label: label, extraMods: extra, idxVar: iv, rfo: rfo,
 			sync: bindElems,
 			autoInv: func(st *State) Term {
 				return and(mk(sortBool, "(<= 0 %s)", idx(st).S), mk(sortBool, "(<= %s %s)", idx(st).S, n.S))
@@ -1701,7 +1742,7 @@ func (fv *FuncVerifier) unrollRange(s *ast.RangeStmt, st *State, coll Term, n in
 }
 
 // checkAssertsBefore: contract assertions anchored at this statement.
-func (fv *FuncVerifier) checkAssertsBefore(s ast.Stmt, st *State) {
+func (fv *FuncVerifier) checkAssertsBefore(s ast.Stmt, st *State, after bool) {
 	if fv.anchorStmts == nil {
 		fv.anchorStmts = map[ast.Stmt][]int{}
 		for i, ab := range fv.spec.AssertsBefore {
@@ -1714,7 +1755,208 @@ func (fv *FuncVerifier) checkAssertsBefore(s ast.Stmt, st *State) {
 	}
 	for _, i := range fv.anchorStmts[s] {
 		ab := fv.spec.AssertsBefore[i]
-		t := fv.evalClauseHere(ab.Clause, st, s.Pos())
-		fv.oblige(st, "assert", fmt.Sprint(i), t, s.Pos(), "before `"+ab.Anchor+"`: "+ab.Clause.Text)
+		if ab.After != after {
+			continue
+		}
+		saved := fv.clauseCtx
+		fv.clauseCtx = nil
+		at := s.Pos()
+		if after {
+			at = s.End()
+		}
+		t := fv.evalClauseHere(ab.Clause, st, at)
+		fv.clauseCtx = saved
+		when := "before"
+		if after {
+			when = "after"
+		}
+		fv.oblige(st, "assert", fmt.Sprint(i), t, s.Pos(), when+" `"+ab.Anchor+"`: "+ab.Clause.Text)
+		if after {
+			st.assume(t) // proved just above: available to the rest of the path (a proof hint)
+		}
 	}
+}
+
+// ---------------------------------------------------------------- range over an iterator function
+
+type clauseCtx struct {
+	fr  *frame
+	pos token.Pos
+}
+
+type yieldCtx struct {
+	stmt  *ast.RangeStmt
+	fr    *frame // frame of the function containing the range statement
+	label string
+}
+
+type rangeFuncOverride struct {
+	ls          *LoopSpec
+	ord         int
+	callerFrame *frame
+	iterFrame   *frame
+	pos         token.Pos
+	yield       types.Object
+	extraMods   []types.Object
+	heaps       bool
+	used        bool
+}
+
+func callsObj(info *types.Info, n ast.Node, obj types.Object) bool {
+	found := false
+	ast.Inspect(n, func(n ast.Node) bool {
+		if c, ok := n.(*ast.CallExpr); ok {
+			if id, ok := ast.Unparen(c.Fun).(*ast.Ident); ok && info.Uses[id] == obj {
+				found = true
+			}
+		}
+		return !found
+	})
+	return found
+}
+
+// execRangeFunc executes `for k, v := range f(args) { body }` where f is a function of the loaded
+// program whose body is a single `return func(yield ...) {...}`: the iterator body is executed in
+// place with yield bound to the loop body. The (single) loop of the iterator that calls yield is
+// cut with the loop specification written for the range statement; __ri(0) in it is that loop's index.
+func (fv *FuncVerifier) execRangeFunc(s *ast.RangeStmt, st *State, label string, ls *LoopSpec, ord int) *State {
+	call, ok := ast.Unparen(s.X).(*ast.CallExpr)
+	if !ok {
+		reject("range over a function value that is not a call at %s", fv.pos(s.Pos()))
+	}
+	fn, ok := fv.calleeOf(call).(*types.Func)
+	if !ok {
+		reject("range over a computed iterator at %s", fv.pos(s.Pos()))
+	}
+	key := funcKey(fn)
+	fd := fv.prog.decls[key]
+	if fd == nil || fd.decl.Body == nil || len(fd.decl.Body.List) != 1 {
+		reject("range over iterator %s: body not available or not a single return", key)
+	}
+	ret, ok := fd.decl.Body.List[0].(*ast.ReturnStmt)
+	if !ok || len(ret.Results) != 1 {
+		reject("range over iterator %s: body is not `return func(yield) {...}`", key)
+	}
+	lit, ok := ast.Unparen(ret.Results[0]).(*ast.FuncLit)
+	if !ok || lit.Type.Params == nil || len(lit.Type.Params.List) != 1 || len(lit.Type.Params.List[0].Names) != 1 {
+		reject("range over iterator %s: body is not `return func(yield) {...}`", key)
+	}
+	ast.Inspect(s.Body, func(n ast.Node) bool {
+		switch n.(type) {
+		case *ast.FuncLit:
+			return false
+		case *ast.ReturnStmt:
+			reject("return inside the body of a range over an iterator function at %s", fv.pos(n.Pos()))
+		}
+		return true
+	})
+	callerFrame := fv.frame()
+	cms := fv.modset(s.Body)
+	info := callerFrame.info
+	for _, e := range []ast.Expr{s.Key, s.Value} {
+		if id, ok := e.(*ast.Ident); ok && id.Name != "_" {
+			if o := info.Defs[id]; o != nil {
+				cms.vars[o] = true
+			} else if o := info.Uses[id]; o != nil {
+				cms.vars[o] = true
+			}
+		}
+	}
+	args, _ := fv.receiverAndArgs(fn, call, st)
+	sig := fd.fn.Type().(*types.Signature)
+	nf := &frame{fd: fd, info: fd.pkg.TypesInfo, pkg: fd.pkg, tsubst: fv.callTSubst(fn, call)}
+	k := 0
+	if sig.Recv() != nil {
+		if args[0].Sort != nil {
+			st.vars[sig.Recv()] = args[0]
+		}
+		k = 1
+	}
+	for i := 0; i < sig.Params().Len(); i++ {
+		if sig.Variadic() {
+			reject("variadic iterator function %s", key)
+		}
+		if k+i < len(args) && args[k+i].Sort != nil {
+			st.vars[sig.Params().At(i)] = args[k+i]
+		}
+	}
+	yobj := fd.pkg.TypesInfo.Defs[lit.Type.Params.List[0].Names[0]]
+	if fv.yields == nil {
+		fv.yields = map[types.Object]*yieldCtx{}
+	}
+	fv.yields[yobj] = &yieldCtx{stmt: s, fr: callerFrame, label: label}
+	defer delete(fv.yields, yobj)
+	ov := &rangeFuncOverride{ls: ls, ord: ord, callerFrame: callerFrame, iterFrame: nil, pos: s.Body.Lbrace, yield: yobj, heaps: cms.heaps}
+	for o := range cms.vars {
+		ov.extraMods = append(ov.extraMods, o)
+	}
+	sort.Slice(ov.extraMods, func(i, j int) bool { return ov.extraMods[i].Pos() < ov.extraMods[j].Pos() })
+	savedOv := fv.rfOverride
+	fv.rfOverride = ov
+	defer func() { fv.rfOverride = savedOv }()
+	fv.frames = append(fv.frames, nf)
+	// runClosureBody pushes a frame derived from nf; the iterator's loop runs in that frame
+	ov.iterFrame = nil
+	fv.rfPending = ov
+	fv.runClosureBody(lit, nf, nil, st)
+	fv.frames = fv.frames[:len(fv.frames)-1]
+	if !ov.used && ls != nil {
+		reject("range over iterator %s: no loop calling yield found for the loop specification", key)
+	}
+	fv.inlined[key] = true
+	return st
+}
+
+// callYield runs the body of the range statement that the iterator's yield stands for.
+func (fv *FuncVerifier) callYield(yc *yieldCtx, args []Term, st *State) []Term {
+	s := yc.stmt
+	info := yc.fr.info
+	bindv := func(e ast.Expr, v Term) {
+		id, ok := e.(*ast.Ident)
+		if !ok || id.Name == "_" || v.Sort == nil {
+			return
+		}
+		if o := info.Defs[id]; o != nil {
+			st.vars[o] = v
+		} else if o := info.Uses[id]; o != nil {
+			st.vars[o] = v
+		}
+	}
+	if s.Key != nil && len(args) > 0 {
+		bindv(s.Key, args[0])
+	}
+	if s.Value != nil && len(args) > 1 {
+		bindv(s.Value, args[1])
+	}
+	savedCtx, savedOv := fv.clauseCtx, fv.rfOverride
+	fv.clauseCtx, fv.rfOverride = nil, nil
+	defer func() { fv.clauseCtx, fv.rfOverride = savedCtx, savedOv }()
+	nf := &frame{fd: yc.fr.fd, info: yc.fr.info, pkg: yc.fr.pkg, tsubst: yc.fr.tsubst, results: yc.fr.results}
+	lf := &loopFrame{label: yc.label}
+	nf.loops = append(nf.loops, lf)
+	fv.frames = append(fv.frames, nf)
+	base := len(st.pc)
+	end := fv.execBlock(s.Body.List, st.clone())
+	fv.frames = fv.frames[:len(fv.frames)-1]
+	res := types.NewVar(token.NoPos, nil, "yieldres", types.Typ[types.Bool])
+	var outs []*State
+	for _, c := range append([]*State{end}, lf.continues...) {
+		if c != nil {
+			c.vars[res] = boolT(true)
+			outs = append(outs, c)
+		}
+	}
+	for _, b := range lf.breaks {
+		b.vars[res] = boolT(false)
+		outs = append(outs, b)
+	}
+	m := fv.mergeStates(outs, base)
+	if m == nil {
+		st.assume(boolT(false))
+		return []Term{boolT(true)}
+	}
+	*st = *m
+	r := st.vars[res]
+	delete(st.vars, res)
+	return []Term{r}
 }
